@@ -123,8 +123,8 @@ def check(ctx, rep):
                 why = 'a notification is never resolved, so resume() — the only place entries are removed — is never called for it'
             elif resumes == 1:
                 after = trans[state]
-                released = after in removable
-                why = 'after its one resolution the entry is %s, which resume() %s' % (after, 'removes' if released else 'keeps')
+                released = after in removable or state in removable
+                why = 'at its one resolution the entry is %s -> %s, which resume() %s' % (state, after, 'removes' if released else 'keeps')
             else:
                 after = trans[state]
                 released = after in removable and after != state
